@@ -6,9 +6,9 @@ from vlib.core import Outcome, Sub
 from vlib import drive
 
 PROPERTY = "C05"
-RULE = ("standard: StandardCombi on {Trapezoidal(boundary T/F), ClenshawCurtis, GaussLegendre, Simpson, Lagrange} grids, d 1-3, "
+RULE = ("standard: StandardCombi on {Trapezoidal(boundary T/F), ClenshawCurtis, GaussLegendre, Simpson, Leja, Lagrange, BSpline} grids, d 1-3, "
         "1<=lmin<=lmax<=lmin+3, vector-valued arbitrary integrand; dimadaptive: DimAdaptiveCombi (maxv=2) with drawn tolerance and point "
-        "limit; dw / es: dimension-wise (all versions, rebalancing, boundary) and extend-split (version 0) runs driven by a scripted "
+        "limit; dw / es: dimension-wise (all versions, rebalancing, boundary; global trapezoidal, high-order, Romberg, Lagrange and B-spline grids) and extend-split (version 0) runs driven by a scripted "
         "decision tape and stopped cleanly by a drawn max_evaluations, with and without reevaluate_at_end. Oracle: the reported value "
         "equals sum_grids c * sum_i w_i f(p_i) recomputed from the public points and weights (per area for extend-split; "
         "grid.integrate per component for hierarchical grids), equals get_points_and_weights() applied to f (nodal grids), equals "
@@ -58,6 +58,10 @@ def make_local_grid(name, a, b, boundary):
         return G.SimpsonGrid(a, b)
     if name == "lagrange":
         return G.LagrangeGrid(a, b, p=2)
+    if name == "bspline":
+        return G.BSplineGrid(a, b, p=3)
+    if name == "leja":
+        return G.LejaGrid(a, b)
     raise ValueError(name)
 
 
@@ -75,7 +79,7 @@ def run_standard(case):
     with drive.quiet():
         scheme, _, result = combi.perform_operation(case["lmin"], case["lmax"])
     result = np.array(result, dtype=float)
-    nodal = case["grid"] != "lagrange"
+    nodal = case["grid"] not in ("lagrange", "bspline")
     tot = np.zeros(len(comps))
     mag = 0.0
     for cg in scheme:
@@ -142,6 +146,37 @@ def run_dimadaptive(case):
 
 
 # ---------------------------------------------------------------------------------------------------------------
+def make_global_grid(case):
+    """None -> default GlobalTrapezoidalGrid of drive.build_dw"""
+    from sparseSpACE import Grid as G
+    a, b = np.array(case["a"], dtype=float), np.array(case["b"], dtype=float)
+    k = case.get("dwgrid", "trapezoidal")
+    if k == "highorder":
+        return G.GlobalHighOrderGrid(a, b, boundary=True, max_degree=case.get("max_degree", 3))
+    if k == "romberg":
+        return G.GlobalRombergGrid(a, b, boundary=True)
+    if k == "lagrange":
+        return G.GlobalLagrangeGrid(a, b, boundary=True, p=2)
+    if k == "bspline":
+        return G.GlobalBSplineGrid(a, b, boundary=True, p=3)
+    return None
+
+
+def _independent_dw_hierarchical(sa, case, f):
+    """hierarchical global grids: the operation applied independently = integrate on a FRESH grid object per component grid"""
+    tot = np.zeros(f.output_length())
+    mag = 0.0
+    for cg in sa.scheme:
+        coords, levels, _ = sa.get_point_coord_for_each_dim(cg.levelvector)
+        g = make_global_grid(case)
+        with drive.quiet():
+            g.set_grid(coords, levels)
+            t = np.asarray(g.integrate(f, cg.levelvector, np.array(case["a"], dtype=float), np.array(case["b"], dtype=float)), dtype=float)
+        tot += cg.coefficient * t
+        mag += abs(cg.coefficient) * float(np.max(np.abs(t)))
+    return tot, mag
+
+
 def _independent_dw(sa, comps):
     tot = np.zeros(len(comps))
     mag = 0.0
@@ -192,7 +227,13 @@ def run_adaptive(case):
         if 0 < grow < full:
             st_["strict"] += 1
 
-    sa, op = build(case, f)
+    hier = kind == "dw" and case.get("dwgrid") in ("lagrange", "bspline")
+    if kind == "dw":
+        if case.get("dwgrid", "trapezoidal") != "trapezoidal":
+            case = dict(case, boundary=True)
+        sa, op = build(case, f, grid=make_global_grid(case))
+    else:
+        sa, op = build(case, f)
     case = dict(case, maxsteps=30)      # depth guard: targeted tapes would otherwise refine below double precision
     res, _ = drive.run_history(sa, case, before_refine=before_refine, after_refine=after_refine, clean_stop=True,
                                reevaluate_at_end=False)
@@ -201,7 +242,9 @@ def run_adaptive(case):
         return out
     reported = np.array(res[3], dtype=float)
     tag = "%s stop after %d refinement steps (%d points)" % (kind, st_["steps"], res[6][-1])
-    if kind == "dw":
+    if hier:
+        tot, mag = _independent_dw_hierarchical(sa, case, _integrand(case)[1])
+    elif kind == "dw":
         tot, mag = _independent_dw(sa, comps)
     else:
         tot, mag, per_area = _independent_es(sa, comps)
@@ -214,7 +257,7 @@ def run_adaptive(case):
                 break
     if not _close(reported, tot, mag):
         out.bad(sub + "/result-not-sum-of-components", "%s: reported %s independent %s" % (tag, reported, tot))
-    if kind == "dw":
+    if kind == "dw" and not hier:
         with drive.quiet():
             P, W = sa.get_points_and_weights()
         t, m = _wsum(comps, [tuple(float(x) for x in p) for p in P], W)
@@ -231,7 +274,7 @@ def run_adaptive(case):
             out.bad(sub + "/evaluate_final_combi/differs", "%s: %s vs reported %s" % (tag, fin, reported))
     # twin run with reevaluate_at_end=True
     comps2, f2 = _integrand(case)
-    sa2, op2 = build(case, f2)
+    sa2, op2 = build(case, f2, grid=make_global_grid(case)) if kind == "dw" else build(case, f2)
     res2, _ = drive.run_history(sa2, case, clean_stop=True, reevaluate_at_end=True)
     if res2 is None:
         raise RuntimeError("twin run did not stop although the first run did")
@@ -243,6 +286,8 @@ def run_adaptive(case):
             out.bad(sub + "/reevaluate_at_end/differs", "%s: %s vs %s" % (tag, rep2, reported))
     out.nontrivial = st_["steps"] >= 2 and st_["strict"] >= 1
     out.cls("version=%d" % case["version"], "steps>=2" if st_["steps"] >= 2 else "steps<2")
+    if kind == "dw":
+        out.cls("dwgrid=" + case.get("dwgrid", "trapezoidal"))
     out.info = dict(max_steps=st_["steps"], max_points=int(res[6][-1]))
     return out
 
@@ -252,7 +297,8 @@ def standard_strategy(tier):
     @st.composite
     def s(draw):
         dim = draw(st.integers(1, 3))
-        grid = draw(st.sampled_from(["trapezoidal", "trapezoidal", "clenshawcurtis", "gausslegendre", "simpson", "lagrange"]))
+        grid = draw(st.sampled_from(["trapezoidal", "trapezoidal", "clenshawcurtis", "gausslegendre", "simpson", "lagrange",
+                                     "bspline", "leja"]))
         lmin = draw(st.integers(1, 2))
         span = 3 if grid in ("trapezoidal", "simpson") else 2
         lmax = lmin + draw(st.integers(0, span if dim < 3 else 2))
@@ -279,6 +325,14 @@ def dw_strategy(tier):
     def s(draw):
         c = draw(drive.st_dw_case(tier=tier))
         c["nout"] = draw(st.integers(1, 3))
+        c["dwgrid"] = draw(st.sampled_from(["trapezoidal", "trapezoidal", "trapezoidal", "highorder", "highorder", "romberg", "lagrange", "bspline"]))
+        c["max_degree"] = draw(st.integers(2, 4))
+        if c["dwgrid"] == "romberg":        # the Romberg grid asserts exactly dyadic step widths
+            c["a"] = [0.0] * c["dim"]
+            c["b"] = [draw(st.sampled_from([1.0, 2.0, 0.5])) for _ in range(c["dim"])]
+            c["rebalancing"] = False
+        if c["dwgrid"] in ("lagrange", "bspline"):
+            c["maxev"] = min(c["maxev"], 150)
         return c
     return s()
 
